@@ -983,9 +983,51 @@ def _one_cell(ctx) -> None:
            message="; ".join(f"{q} (line {ln}) exempts only {sorted(names)} from its Iterable test: a number or enum member whose class is "
                              f"iterable (enum.IntFlag: Perm.R | Perm.W) is taken for a sequence of its bits there" for q, ln, names, _ok in bad[:3]))
 
+    # column assignment by attribute (t.a = value replaces the column): the value is a SEQUENCE of cells - a string, a number or a
+    # mapping is one value and must not be unrolled into a column (`Vector('xy')` iterates the characters).  Evaluated by kind of the
+    # value: no replacement of the column is reachable for a str / Mapping / IntFlag value
+    from ..sites2 import interp_of as _iof
+    from ..symx import flatten_conds as _fc, subterms as _st
+    from ..tv import tv as _tv
+    sa = ctx.prog.func("table.Table.__setattr__")
+    si = _iof(ctx.prog, sa)
+    SV = ("param", sa.params[2])
+    SS = ("param", sa.params[0])
+    KN = {"str": ({"str", "Iterable", "Sequence", "Sized", "Collection"}, {"Vector", "Table", "Row", "list", "tuple", "bytes", "bytearray", "int",
+                                                                            "float", "complex", "Enum", "Mapping", "dict", "Iterator"}),
+          "Mapping": ({"Mapping", "Iterable", "Sized", "Collection"}, {"Vector", "Table", "Row", "list", "tuple", "str", "bytes", "bytearray", "int",
+                                                                        "float", "complex", "Enum", "Iterator", "Sequence"}),
+          "IntFlag": ({"int", "Iterable", "Enum", "Flag", "IntFlag"}, {"Vector", "Table", "Row", "list", "tuple", "str", "bytes", "bytearray", "float",
+                                                                       "complex", "Mapping", "dict", "Iterator", "Sequence", "Sized"})}
+
+    def feasible_for(e, kind):
+        yes, no = KN[kind]
+
+        def atom(x):
+            if x[0] == "call" and x[1] == ("name", "isinstance") and len(x[2]) == 2 and x[2][0] == SV:
+                names = {y[1] for y in _st(x[2][1]) if y[0] == "name"}
+                if names & yes:
+                    return True
+                return False if names and names <= no else None
+            return None
+        return not any(_tv(c, atom) is (not pol) for c, pol in _fc(e.conds))
+    repl = [e for e in si.events if (e.kind == "call" and e.term[1] == ("attr", SS, "_replace_column"))
+            or (e.kind == "call" and e.term[1] == ("attr", ("name", "object"), "__setattr__") and len(e.term[2]) >= 2
+                and e.term[2][1] == ("const", "str", "_underlying"))
+            or (e.kind == "store" and e.term == ("attr", SS, "_underlying"))]
+    unrolled = sorted({k for k in KN for e in repl if feasible_for(e, k)})
+    ctx.ob("c.key-forms", sa, "attribute-column-value", bool(repl) and not unrolled,
+           f"{len(repl)} column replacement(s) in Table.__setattr__, none reachable for a string / number / mapping value", sa.node,
+           message=f"Table.__setattr__ replaces a column by `Vector(value)` of a {' / '.join(unrolled)} value: t.a = 'xy' on a two-row table "
+                   f"stores the characters ['x', 'y'] (a mapping its keys) - a string, a number or a mapping is ONE value, as in "
+                   f"t[:, 'a'] = 'xy' and t >> {{'a': 'xy'}}")
+
 
 _V, _T = "vector", "table"
 MUTANTS = [
+    dict(id="attribute-column-from-a-string", module="table", count=2, nth=1,
+         old="					if not isinstance(value, Iterable) or isinstance(value, (str, bytes, bytearray, int, float, complex, Enum, Mapping)):\n						raise SerifTypeError(f\"Cannot assign column '{attr}': expected",
+         new="					if False:\n						raise SerifTypeError(f\"Cannot assign column '{attr}': expected", rules=["c.key-forms"], desc="reverts fix 83a5df7 (plain accessor branch)"),
     dict(id="flag-value-stored-bit-by-bit", module="vector", old="			and not isinstance(value, (str, bytes, bytearray, int, float, complex, Enum))\n		)",
          new="			and not isinstance(value, (str, bytes, bytearray))\n		)", rules=["c.key-forms"], desc="reverts fix 46d03df in Vector.__setitem__"),
     dict(id="iterator-items-used-up-by-the-rehearsal", module="table",
